@@ -16,6 +16,9 @@
 //!                     {"mode":"memfs"|"vfs", "dir": base directory (vfs mode; created and removed here),
 //!                      "files":[[path,text],..] (the static disk), "include_dir": null|path,
 //!                      "history":[[kind,path,text],..]  kind = "touch" | "raw",
+//!                      "host_only": true -> no derived query is evaluated on the own RootDatabase; diagnostics, links and
+//!                      outline of the step are those of the real AnalysisHost (C07's fresh host: one case per process, so
+//!                      that the index runs exactly once in a freshly started process),
 //!                      "full": true -> every step also carries "queries": the full query set of the
 //!                      public Analysis API of the real AnalysisHost, keyed by path (memfs mode)}
 //!                   stdout: ONE LINE PER CASE, flushed: {"steps":[..]} | {"panic":msg} | {"timeout":true}.
@@ -123,7 +126,7 @@ fn touch<R: RealFs>(fs: &mut Fs<R>, db: &mut RootDatabase, p: &str, text: &str, 
     db.set_source_root(Arc::new(sr));
 }
 
-fn dump<R: RealFs>(fs: &Fs<R>, db: &RootDatabase, have_root: bool) -> Value {
+fn dump<R: RealFs>(fs: &Fs<R>, db: &RootDatabase, have_root: bool, db_queries: bool) -> Value {
     let mut out = serde_json::Map::new();
     // id table: ids are allocated consecutively from 0
     let mut ids = Vec::new();
@@ -169,6 +172,11 @@ fn dump<R: RealFs>(fs: &Fs<R>, db: &RootDatabase, have_root: bool) -> Value {
     let mut names: Vec<String> = files.iter().map(|f| fs.name(f)).collect();
     names.sort();
     out.insert("files".into(), json!(names));
+    if !db_queries {
+        // "host_only" cases: no derived query is evaluated on this database (the index must run exactly once
+        // in the process: on the AnalysisHost)
+        return Value::Object(out);
+    }
     // queries
     let diags = diagnostics::exec(db);
     let mut keys: Vec<String> = diags.keys().map(|f| fs.name(f)).collect();
@@ -303,6 +311,13 @@ fn dump_queries(fs: &MemFs, host: &AnalysisHost, texts: &std::collections::HashM
             }
         }
         o.insert("at".into(), Value::Array(at));
+        // the whole outline tree (names, types, kinds, ranges, children: generated names such as anonymous_N show here)
+        fn tree(s: &ide::handlers::document_symbol::DocumentSymbol) -> Value {
+            json!([s.name.to_string(), s.typ.to_string(), format!("{:?}", s.kind), u32::from(s.range.start()), u32::from(s.range.end()),
+                   s.children.iter().map(tree).collect::<Vec<_>>()])
+        }
+        let ot = std::panic::catch_unwind(AssertUnwindSafe(|| a.document_symbol(*f).map(|v| v.iter().map(tree).collect::<Vec<_>>())));
+        o.insert("outline_tree".into(), ot.map(|v| json!(v)).unwrap_or(json!("panic")));
         out.insert(name, Value::Object(o));
     }
     Value::Object(out)
@@ -348,7 +363,8 @@ fn run_case<R: RealFs>(case: &Value) -> Value {
         }
         touch(&mut fs, &mut db, p, text, raw);
         have_root = have_root || !raw;
-        let mut d = dump(&fs, &db, have_root);
+        let host_only = case["host_only"].as_bool() == Some(true);
+        let mut d = dump(&fs, &db, have_root, !host_only);
         if let Fs::Mem(m) = &fs {
             d["reads"] = json!(m.reads.borrow().clone());
             // same operation on the AnalysisHost
@@ -360,10 +376,19 @@ fn run_case<R: RealFs>(case: &Value) -> Value {
             }
             if have_root {
                 let h = dump_host(&fs2, &host);
-                let same = h["diagnostics"] == d["diagnostics"] && h["links"] == d["links"] && h["outline"] == d["outline"];
-                d["host_agrees"] = json!(same);
-                if !same {
-                    d["host"] = h;
+                if host_only {
+                    let mut keys: Vec<String> = h["diagnostics"].as_object().unwrap().keys().cloned().collect();
+                    keys.sort();
+                    d["diag_keys"] = json!(keys);
+                    d["diagnostics"] = h["diagnostics"].clone();
+                    d["links"] = h["links"].clone();
+                    d["outline"] = h["outline"].clone();
+                } else {
+                    let same = h["diagnostics"] == d["diagnostics"] && h["links"] == d["links"] && h["outline"] == d["outline"];
+                    d["host_agrees"] = json!(same);
+                    if !same {
+                        d["host"] = h;
+                    }
                 }
                 if case["full"].as_bool() == Some(true) {
                     let texts: std::collections::HashMap<String, String> = fs2
